@@ -427,6 +427,11 @@ func buildFile(r *rand.Rand, mode int) (data []byte, nvals int, chains [][]int, 
 	// a value nobody refers to: only ever decoded through DecodeExclusive
 	excl = alloc()
 	must(w.Put(refs[excl], pdf.Dict{"Self": pdf.Integer(excl), "Next": refs[vals[0]]}))
+	// references that lead back to themselves (500 -> 500, 501 -> 502 -> 501):
+	// resolving them fails, and every failure must read like the one before
+	must(w.Put(pdf.NewReference(500, 0), pdf.NewReference(500, 0)))
+	must(w.Put(pdf.NewReference(501, 0), pdf.NewReference(502, 0)))
+	must(w.Put(pdf.NewReference(502, 0), pdf.NewReference(501, 0)))
 	// values: half of them through an object stream
 	var crefs []pdf.Reference
 	var cobjs []pdf.Object
@@ -548,6 +553,19 @@ func (w *world) do(o op) (ok bool, id int, dig string) {
 			pdf.Format(&b, 0, obj)
 		}
 		return true, 0, digest(b.Bytes())
+	case "ResolveCycle":
+		// an error is an answer too: it must not depend on who failed before
+		cref := pdf.NewReference(uint32(500+o.Ref%3), 0)
+		if _, err := pdf.Resolve(w.r, cref); err != nil {
+			return false, 0, "resolve: " + err.Error()
+		}
+		return true, 0, ""
+	case "DecodeCycle":
+		cref := pdf.NewReference(uint32(500+o.Ref%3), 0)
+		if _, err := pdf.Decode(w.cur, cref, w.dec()); err != nil {
+			return false, 0, "decode: " + err.Error()
+		}
+		return true, 0, ""
 	case "AbandonFlateDCT":
 		// a stream with /Filter [/FlateDecode /DCTDecode], partly read and
 		// closed: nothing of it may still be at work afterwards (the Flate
@@ -704,6 +722,8 @@ func main() {
 						o.Op = "DecodeStreamCloseTwice"
 					} else if r.Intn(4) == 0 {
 						o = op{"AbandonFlateDCT", r.Intn(8)}
+					} else if r.Intn(5) == 0 {
+						o = op{[]string{"ResolveCycle", "DecodeCycle"}[r.Intn(2)], r.Intn(3)}
 					}
 				case 4, 5, 6:
 					all := append(append([]int{}, valRefs...), chainRefs...)
